@@ -33,8 +33,9 @@ func C08_Admission() {
 	hasHalf := verif.Bool("has_halfauth")
 	has2FA := verif.Bool("has_twofactor")
 	w.Session.SetP(authboss.SessionKey, uid, hasUID)
-	w.Session.SetP(authboss.SessionHalfAuthKey, "true", hasHalf)
-	w.Session.SetP(authboss.Session2FA, "totp", has2FA)
+	// the marks count by presence: whatever value the session store holds for them
+	w.Session.SetP(authboss.SessionHalfAuthKey, verif.String("halfauth", 4), hasHalf)
+	w.Session.SetP(authboss.Session2FA, verif.String("twofactor", 4), has2FA)
 	w.Store.Users = []world.Record{world.NewUser("u1", "u1@x")}
 	storeFails := verif.Bool("store_fails")
 	w.Store.Fault = func(site string) bool { return storeFails }
